@@ -307,7 +307,11 @@ bool deserialize(const std::string &s, Verdict &v, Ctx &c) {
 Outcome runInProcess(const std::vector<uint32_t> &ch) {
   Outcome o;
   Choices c(ch);
-  o.v = S.prop->fn(c, o.ctx);
+  try {
+    o.v = S.prop->fn(c, o.ctx);
+  } catch (const std::exception &e) {
+    o.v = Verdict::fail("oracle-exception", std::string("the oracle could not read the library's answer: ") + e.what());
+  }
   if (c.exhausted()) o.ctx.label("choices:truncated");
   return o;
 }
@@ -336,7 +340,13 @@ Outcome runForked(const std::vector<uint32_t> &ch) {
     Choices c(ch);
     Ctx ctx;
     ctx.earlyFd = pfd[1];
-    Verdict v = S.prop->fn(c, ctx);
+    Verdict v;
+    try {
+      v = S.prop->fn(c, ctx);
+    } catch (const std::exception &e) {
+      // e.g. the library handed the oracle a NULL where a string is documented
+      v = Verdict::fail("oracle-exception", std::string("the oracle could not read the library's answer: ") + e.what());
+    }
     if (c.exhausted()) ctx.label("choices:truncated");
     serialize(pfd[1], v, ctx);
     close(pfd[1]);
